@@ -27,6 +27,7 @@ WITNESS = {
     "standin_rewrites": ("src/optimizer/mod.rs", "26 programs x 7 optimizer configurations x 4 engine instances, 4 small relations"),
     "standin_value_roundtrip": ("src/storage_engine/mod.rs", "14 relations (one per value kind, Nulls in typed columns, vectors, 4 mixed-kind) x {WAL replay, save + restart}"),
     "standin_pagination_e2e": ("src/protocol/handler.rs", "Handler::query_program on 10 rows: sort {none,asc,desc} x limit {1,3,4,10,15} x offset {absent,0,2,3,9,12}"),
+    "standin_vector_laws": ("src/vector_ops.rs", "8 dimensions (0..33) x 60 pseudo-random vector pairs incl. zero/negative/huge/tiny elements; 36 LSH bucket/cache-state sequences"),
     "standin_delete": ("src/storage_engine/mod.rs", "relations of 0..300 tuples x 7 delete batches mixing present/absent/repeated tuples"),
     "standin_histories_clean": ("src/storage_engine/mod.rs", "every clean insert/delete history of length <= 5 over 2 tuples, save, restart"),
     "standin_histories_dirty": ("src/storage_engine/mod.rs", "every history of length <= 3 over 2 tuples with a re-insert or an absent delete, save, restart"),
@@ -61,6 +62,7 @@ def run(unit, repo, root, synced=False, group=None, tier=None):
     env = dict(os.environ, CARGO_NET_OFFLINE="true", VERIF_TIER=tier or os.environ.get("VERIF_TIER", "quick"))
     cmd = ["cargo", "test", "--offline", "--lib", "--target-dir", kani_run.TEST_TARGET,
            "verif_witness_%s::verif_witness" % unit, "--", "--nocapture", "--test-threads", "1"]
+    kani_run.pre_build("test")
     try:
         pr = subprocess.run(cmd, cwd=kani_run.WORK, env=env, capture_output=True, text=True, timeout=3600)
     except subprocess.TimeoutExpired:
@@ -82,6 +84,9 @@ def run(unit, repo, root, synced=False, group=None, tier=None):
     if "panicked at" in out and "test result: FAILED" in out:
         pm = re.search(r"panicked at ([^\n]*\n[^\n]*)", out)
         res.update(status="found", detail="the real code panicked during the search: " + (pm.group(1) if pm else ""))
+        return res
+    if re.search(r"running 0 tests", out) and not re.search(r"running [1-9]\d* tests?", out):
+        res.update(status="error", detail="the test binary does not contain the witness module (0 tests ran)")
         return res
     errs = [l for l in out.split("\n") if l.startswith("error")][:5]
     res.update(status="error", detail="witness module did not build/run: " + " | ".join(errs))
